@@ -79,7 +79,7 @@ where C: ArrayCast<Array = [T; N]> + Clamp + ClampAssign + IsWithinBounds<Mask =
         let cl = c.clone().clamp();
         let wa = cl.is_within_bounds();
         let arr: [T; N] = cast::into_array(cl.clone());
-        out.case(&format!("clamp {} | {} {} {} | {} {} {}", key, N, arr_txt(vs), bounds_txt(&bounds), arr_txt(&arr), wb as u8, wa as u8));
+        if emit() { out.case(&format!("clamp {} | {} {} {} | {} {} {}", key, N, arr_txt(vs), bounds_txt(&bounds), arr_txt(&arr), wb as u8, wa as u8)); }
         out.count(if wb { "cls:in-bounds" } else { "cls:out-of-bounds" });
         out.check(wa, &format!("clamped-is-within:{}", tag), || format!("{:?} -> {:?}", vs, arr));
         if wb { out.check(same_arr(vs, &arr), &format!("in-bounds-unchanged:{}", tag), || format!("{:?} -> {:?}", vs, arr)); }
@@ -115,6 +115,10 @@ where C: ArrayCast<Array = [T; N]> + Clamp + ClampAssign + IsWithinBounds<Mask =
 }
 
 /// HWB family: whiteness + blackness coupled
+/// protocol lines are suppressed for configurations the Lean model does not cover (integer HWB arithmetic, the macro-generated partial CAM16 types): oracle only
+static EMIT: std::sync::atomic::AtomicBool = std::sync::atomic::AtomicBool::new(true);
+fn emit() -> bool { EMIT.load(std::sync::atomic::Ordering::Relaxed) }
+
 fn run_hwb<C, T: Comp + std::ops::Add<Output = T>>(out: &mut Out, rng: &mut Rng, key: &str, one: T, n_rand: usize, mk: fn(f64) -> T)
 where C: ArrayCast<Array = [T; 3]> + Clamp + ClampAssign + IsWithinBounds<Mask = bool> + Clone {
     let tag = format!("{}:{}", key, T::TAG);
@@ -131,7 +135,7 @@ where C: ArrayCast<Array = [T; 3]> + Clamp + ClampAssign + IsWithinBounds<Mask =
         let cl = c.clone().clamp();
         let wa = cl.is_within_bounds();
         let arr: [T; 3] = cast::into_array(cl.clone());
-        out.case(&format!("clamphwb | {} {} {} {} | {} {} {} {}", z.txt(), one.txt(), w.txt(), b.txt(), arr[1].txt(), arr[2].txt(), wb as u8, wa as u8));
+        if emit() { out.case(&format!("clamphwb | {} {} {} {} | {} {} {} {}", z.txt(), one.txt(), w.txt(), b.txt(), arr[1].txt(), arr[2].txt(), wb as u8, wa as u8)); }
         out.count(if wb { "cls:hwb-in-bounds" } else { "cls:hwb-out-of-bounds" });
         out.check(wa, &format!("clamped-is-within:{}", tag), || format!("w {:?} b {:?} -> w {:?} b {:?}", w, b, arr[1], arr[2]));
         if wb { out.check(same_arr(&[h, w, b], &arr), &format!("in-bounds-unchanged:{}", tag), || format!("w {:?} b {:?} -> {:?}", w, b, arr)); }
@@ -238,6 +242,14 @@ pub fn run(tier: &str, seed: u64, dir: &str) {
         run_type::<Rgb<S, u8>, u8, 3>(&mut out, &mut rng, "Rgb@rgb/rgb.rs", [B::Both(Rgb::<S, u8>::min_red(), Rgb::<S, u8>::max_red()), B::Both(Rgb::<S, u8>::min_green(), Rgb::<S, u8>::max_green()), B::Both(Rgb::<S, u8>::min_blue(), Rgb::<S, u8>::max_blue())], n);
         run_type::<Rgb<S, u16>, u16, 3>(&mut out, &mut rng, "Rgb@rgb/rgb.rs", [B::Both(Rgb::<S, u16>::min_red(), Rgb::<S, u16>::max_red()), B::Both(Rgb::<S, u16>::min_green(), Rgb::<S, u16>::max_green()), B::Both(Rgb::<S, u16>::min_blue(), Rgb::<S, u16>::max_blue())], n);
         run_type::<Luma<S, u8>, u8, 1>(&mut out, &mut rng, "Luma@luma/luma.rs", [B::Both(Luma::<S, u8>::min_luma(), Luma::<S, u8>::max_luma())], n);
+        // integer components with bounds from below only (every unsigned value is within bounds: clamping must change nothing)
+        type LmsB<T> = palette::lms::Lms<palette::lms::matrix::Bradford, T>;
+        run_type::<LmsB<u8>, u8, 3>(&mut out, &mut rng, "Lms@lms/lms.rs", [B::Min(LmsB::<u8>::min_long()), B::Min(LmsB::<u8>::min_medium()), B::Min(LmsB::<u8>::min_short())], n);
+        run_type::<LmsB<u16>, u16, 3>(&mut out, &mut rng, "Lms@lms/lms.rs", [B::Min(LmsB::<u16>::min_long()), B::Min(LmsB::<u16>::min_medium()), B::Min(LmsB::<u16>::min_short())], n);
+        EMIT.store(false, std::sync::atomic::Ordering::Relaxed);
+        run_type::<palette::cam16::Cam16Jch<u8>, u8, 3>(&mut out, &mut rng, "Cam16Jch@cam16/partial.rs", [B::Min(0u8), B::Min(0u8), B::Un], n);
+        run_hwb::<Hwb<S, u8>, u8>(&mut out, &mut rng, "Hwb", 255, n, |x| (x.clamp(0.0, 1.0) * 255.0) as u8);
+        EMIT.store(true, std::sync::atomic::Ordering::Relaxed);
     }
     out.finish(dir, "");
 }
